@@ -2,6 +2,8 @@ import Replicon.Proofs.Client
 import Replicon.Proofs.WrapClient
 import Replicon.Proofs.SentVals
 import Replicon.Proofs.FrameVals
+import Replicon.Proofs.FramePerfect
+import Replicon.Proofs.Belief
 /-
 C02 — Confirmed tick is truthful.
 
@@ -195,5 +197,84 @@ theorem C02_pending_component_is_named (s : Server) (thisRun : Nat) (cl : Cli) (
   · rcases collect_named s thisRun cl e ent m hv k r comp hp hpath with h | h
     · exact Or.inl h
     · exact Or.inr (Or.inl h)
+
+/-- **One replication run, both sides, EVERY value — under perfect delivery** (`Proofs/Untouched.lean`,
+`MutFold.lean`, `FrameServer.lean`, `FramePerfect.lean`).  In a server state that satisfies the
+invariants of the history theorems (`SyncInv`, `RemovalsMarked`, `KindInv`; rules for distinct
+components), for a client without pending pre-spawn mapping whose belief ticks are not ahead of the
+last run, and a well-formed receiver that
+  * holds exactly the entities the server tracks for the client,
+  * has every tracked entity confirmed at a tick older than this run's, and
+  * has the server's value of every every-tick plain component that was neither added nor changed
+    since the last run:
+after the receiver applies the run's update message (if any) and then every record of the run's
+mutate messages (`recvRun`), it has, for EVERY entity the server tracks for the client after the
+run and EVERY every-tick plain component of it, exactly the server's current value.  This is the
+inductive step of "the client's values are the server's after every run" for a link that loses
+nothing: the third hypothesis is what the conclusion gives for the next run, because every change
+between two runs is stamped after the earlier one (Bevy's change ticks).  What is not proved is
+the induction itself over `Joint.Op` (the other two receiver hypotheses and `hbel` as invariants
+of histories), and nothing is claimed for links that lose mutate messages — there the argument
+goes through the acknowledgements (`C11_ack_sound`) and is checked by the value oracle. -/
+theorem C02_run_values_perfect_delivery (p : Server) (x : Nat × Cli) (c : Client) (ctx : RunCtx p x c)
+    (hbel : ∀ e t, aget x.2.mutTick e = some t → t ≤ p.lastRun)
+    (hready : ∀ e, e ∈ keys x.2 → Cli.Ready p.tick c e)
+    (hQ : ∀ e, e ∈ keys x.2 → ∀ ent, (e, ent) ∈ p.world → ∀ k comp, (k, Rate.every, comp) ∈ present p ent →
+      c.entityComps.contains k = false → ¬ comp.added > p.lastRun → ¬ comp.changed > p.lastRun →
+      Cli.valOn c e k = some comp.val)
+    (e : Nat) (he : e ∈ keys (runClient p (p.now + 1) x.2).1) (ent : SEnt) (hw : (e, ent) ∈ p.world)
+    (k : Nat) (comp : Comp) (hp : (k, Rate.every, comp) ∈ present p ent) (hplain : c.entityComps.contains k = false) :
+    Cli.valOn (recvRun c (runClient p (p.now + 1) x.2).2 p.tick) e k = some comp.val :=
+  frame_values_perfect p x c ctx hbel hready hQ e he ent hw k comp hp hplain
+
+/-- The run of `C02_run_values_perfect_delivery` on a concrete history: entity 5 is known to client 0
+with components 7 and 2; component 0 is mutated to 9; the next run sends no update message and one
+mutate record `(5, [(0, 9)])`; the receiver fed the session's update messages has 9 and 2
+afterwards.  (The hypotheses of the theorem are the invariants `Joint.sync_run`, `Joint.rem_run`
+and `Joint.ksess_run` establish for every history.) -/
+example :
+    let s0 : Server := { rates := [(0, .every), (1, .every)] }
+    let ops : List Joint.Op :=
+      [.start, .connect 0 true, .spawn 5 true [(0, 7), (1, 2)], .frame true 10 (fun _ => []), .mutate 5 0 9]
+    let p := preRun (Joint.run { srv := s0 } ops).1.srv true 10
+    let c := Joint.replay ((Joint.runLog { srv := s0 } (fun _ => []) ops).2 0)
+    (p.clients.map fun x => ((runClient p (p.now + 1) x.2).2.update.isSome,
+      (runClient p (p.now + 1) x.2).2.mutEnts.map fun m => (m.ent, m.comps))) = [(false, [(5, [(0, 9)])])] ∧
+    (p.clients.map fun x => Cli.valOn (recvRun c (runClient p (p.now + 1) x.2).2 p.tick) 5 0) = [some 9] ∧
+    (p.clients.map fun x => Cli.valOn (recvRun c (runClient p (p.now + 1) x.2).2 p.tick) 5 1) = [some 2] ∧
+    Cli.valOn c 5 0 = some 7 := by
+  refine ⟨by rfl, by decide, by decide, by decide⟩
+
+/-- **… after ANY history** (`Proofs/Belief.lean`): every server-side hypothesis of
+`C02_run_values_perfect_delivery` is an invariant of histories (`SyncInv`, `RemInv`, `KindInv`, and
+the belief bound `C11_history_belief`), so after any history of the joint server model (entity
+identifiers not reused, a stopped server sees a frame before a restart, no pre-spawn mappings;
+rules for distinct components), in the next frame of a running server and for every client, only
+the three hypotheses about the receiver remain: it holds the tracked entities, has each confirmed
+at an older tick, and has the current value of every every-tick plain component neither added nor
+changed since the last run.  Then it has, after the run's update message and every record of its
+mutate messages, the current value of every every-tick plain component of every entity tracked
+after the run. -/
+theorem C02_history_run_values_perfect_delivery (s0 : Server) (hw : s0.world = []) (hc0 : s0.clients = [])
+    (hb : s0.removalBuf = []) (ht : s0.lastRun < s0.now) (hrates : (s0.rates.map (·.1)).Nodup)
+    (ops : List Joint.Op) (hl : Joint.Legal2 { srv := s0 } ops) (ticked : Bool) (ms : Nat)
+    (hr : (Joint.run { srv := s0 } ops).1.srv.running = true)
+    (z : Nat × Cli) (hz : z ∈ (Joint.run { srv := s0 } ops).1.srv.clients)
+    (c : Client) (wf : WF c) (hh : ∀ se, held c se ↔ se ∈ keys z.2)
+    (hready : ∀ e, e ∈ keys z.2 → Cli.Ready (preRun (Joint.run { srv := s0 } ops).1.srv ticked ms).tick c e)
+    (hQ : ∀ e, e ∈ keys z.2 → ∀ ent, (e, ent) ∈ (Joint.run { srv := s0 } ops).1.srv.world → ∀ k comp,
+      (k, Rate.every, comp) ∈ present (Joint.run { srv := s0 } ops).1.srv ent →
+      c.entityComps.contains k = false → ¬ comp.added > (Joint.run { srv := s0 } ops).1.srv.lastRun →
+      ¬ comp.changed > (Joint.run { srv := s0 } ops).1.srv.lastRun → Cli.valOn c e k = some comp.val)
+    (e : Nat)
+    (he : e ∈ keys (runClient (preRun (Joint.run { srv := s0 } ops).1.srv ticked ms)
+      ((preRun (Joint.run { srv := s0 } ops).1.srv ticked ms).now + 1) (preG (Joint.run { srv := s0 } ops).1.srv ms z.2)).1)
+    (ent : SEnt) (hwld : (e, ent) ∈ (Joint.run { srv := s0 } ops).1.srv.world)
+    (k : Nat) (comp : Comp) (hp : (k, Rate.every, comp) ∈ present (Joint.run { srv := s0 } ops).1.srv ent)
+    (hplain : c.entityComps.contains k = false) :
+    Cli.valOn (recvRun c (runClient (preRun (Joint.run { srv := s0 } ops).1.srv ticked ms)
+      ((preRun (Joint.run { srv := s0 } ops).1.srv ticked ms).now + 1) (preG (Joint.run { srv := s0 } ops).1.srv ms z.2)).2
+      (preRun (Joint.run { srv := s0 } ops).1.srv ticked ms).tick) e k = some comp.val :=
+  Joint.history_run_values_perfect s0 hw hc0 hb ht hrates ops hl ticked ms hr z hz c wf hh hready hQ e he ent hwld k comp hp hplain
 
 end Replicon.C02
